@@ -18,9 +18,9 @@ OUT = os.path.join(ROOT, 'build', 'seedruns', TAG) if TAG else ROOT
 REPO = os.environ.get('VERIF_REPO', '/repo')
 RT = os.path.join(ROOT, 'rt')
 CLANG = 'clang++-14'
-IRFLAGS = ['-std=c++17', '-O1', '-fno-vectorize', '-fno-slp-vectorize', '-fno-unroll-loops', '-DNDEBUG',
+IRFLAGS = ["-ftemplate-depth=2048", '-std=c++17', '-O1', '-fno-vectorize', '-fno-slp-vectorize', '-fno-unroll-loops', '-DNDEBUG',
            '-S', '-emit-llvm']
-REALFLAGS = ['-std=c++17', '-O1', '-DNDEBUG', '-w']
+REALFLAGS = ['-std=c++17', '-O1', '-DNDEBUG', '-w', '-ftemplate-depth=2048']
 BACKENDS = {
     'minisat': [], 'cadical': ['--sat-solver', 'cadical'], 'kissat': ['--external-sat-solver', 'kissat'],
     'z3': ['--z3'], 'cvc5': ['--cvc5'],
